@@ -10,7 +10,14 @@ EXTENDS Cmp
 \* specification first tries the ideal run, then runs with these branches enabled.
 AllDevs == {"KindPriorityNotRecency", "V9OptionsDataFirstRecordOnly", "IpfixGreedyTemplate",
             "IpfixOptionsTemplateFirstOnly", "IpfixStopAfterBadSet"}
-DevCandidates == << {}, AllDevs >> \o SetToSeq({AllDevs \ {d} : d \in AllDevs}) \o SetToSeq({{d} : d \in AllDevs})
+\* Deviations repaired in /repo (known_findings.json, status fixed): a run that takes one is tried only after every
+\* combination of the live ones has failed to explain the result.  (Tried earlier, the all-deviations run could be
+\* picked by the relaxed match for a result that only needed live deviations, and the repaired deviation it happened
+\* to take elsewhere in the buffer was then reported as having returned - a false alarm, DESIGN.md 12.)
+RepairedDevs == {"KindPriorityNotRecency"}
+LiveDevs == AllDevs \ RepairedDevs
+DevCandidates == << {}, LiveDevs >> \o SetToSeq({LiveDevs \ {d} : d \in LiveDevs}) \o SetToSeq({{d} : d \in LiveDevs})
+                 \o << AllDevs >> \o SetToSeq({{d} : d \in RepairedDevs}) \o SetToSeq({RepairedDevs \cup {d} : d \in LiveDevs})
 
 \* property ids a named deviation is filed under
 DevProps(d) == CASE d = "KindPriorityNotRecency"        -> {"C04", "C05", "C06"}     \* data decoded under a superseded definition
